@@ -57,6 +57,12 @@ type Hub struct {
 
 	hasStarted bool
 
+	// pairing detail updates are reported in the order they were created
+	// the sequence number of the most recently created and of the most recently reported update per SKI
+	pairingUpdateCreated  map[string]uint64
+	pairingUpdateReported map[string]uint64
+	muxPairingUpdate      sync.Mutex
+
 	muxCon        sync.Mutex
 	muxConAttempt sync.Mutex
 	muxReg        sync.Mutex
@@ -75,6 +81,8 @@ func NewHub(hubReader api.HubReaderInterface,
 		connectionAttemptRunning: make(map[string]bool),
 		remoteServices:           make(map[string]*api.ServiceDetails),
 		knownMdnsEntries:         make([]*api.MdnsEntry, 0),
+		pairingUpdateCreated:     make(map[string]uint64),
+		pairingUpdateReported:    make(map[string]uint64),
 		hubReader:                hubReader,
 		port:                     port,
 		certifciate:              certificate,
